@@ -1366,48 +1366,43 @@ func (w *vc10World) dedupe() {
 // failedExtension handles an extending Seek/Truncate(t) that reported the
 // injected Add failure. The statement wants content and position as before. On
 // the unchanged tree the in-memory DAG is nevertheless already extended
-// (trickle.Append rewrites curNode in place before the root is stored): one
-// time in four this is checked strictly (class fault/extension-applied-despite-error,
-// a recorded finding); otherwise both sizes are admitted so that the position
-// and everything after the fault stay checked.
+// (trickle.Append rewrites curNode in place before the root is stored): class
+// fault/extension-applied-despite-error, a recorded finding. Such a history
+// ends there; one whose failed call left size and content alone goes on.
 func (w *vc10World) failedExtension(t int64) {
 	w.k.C.Count("ops_reporting_injected_fault", 1)
-	if w.r.Chance(1, 4) {
-		o := w.do("Size", func(o *vc10Obs) { n, err := w.dm.Size(); o.n, o.err = n, err })
-		if o.hung || o.pan != nil {
-			return
+	o := w.do("Size", func(o *vc10Obs) { n, err := w.dm.Size(); o.n, o.err = n, err })
+	if o.hung || o.pan != nil {
+		return
+	}
+	sizeKept := false
+	for _, s := range w.states {
+		if o.err == nil && o.n == int64(len(s.data)) {
+			sizeKept = true
 		}
-		for _, s := range w.states {
-			if o.err == nil && o.n == int64(len(s.data)) {
-				return
-			}
-		}
+	}
+	if !sizeKept {
+		// recorded finding; the in-memory DAG now refers to blocks that were never
+		// stored at some level, so model and modifier are desynchronised: the
+		// history ends here (Fail stops it) instead of attributing the follow-up
+		// damage to whatever operation trips over it.
 		w.k.Fail("fault/extension-applied-despite-error", "failed-call-leaves-size", fmt.Sprintf("Size()==%d after the failed extension to %d", w.size(), t), fmt.Sprintf("%d, %v", o.n, o.err))
 		return
 	}
-	// compensate the recorded finding: the in-memory root was extended but never
-	// stored; store it so that the operations after the fault can be checked
-	// (otherwise a later append links to a block that does not exist)
-	_ = w.dserv.Add(w.ctx, w.dm.curNode)
-	// the same finding in its other shape: the in-place rewritten root is left
-	// structurally broken (links to a block that was never stored, or links
-	// without size hints). Detected here on the modifier's current DAG so that it
-	// gets the finding's class and not the class of whatever operation trips over it.
+	// the size is as before: the modifier's current DAG must also still be the
+	// old content, readable from the DAG service (the other shape of the same
+	// finding is a root rewritten in place with the old size but links to blocks
+	// that were never stored).
 	var probeErr error
-	o := w.do("ProbeAfterFailedExtension", func(o *vc10Obs) {
+	var got []byte
+	o = w.do("ProbeAfterFailedExtension", func(o *vc10Obs) {
 		dr, err := uio.NewDagReader(w.ctx, w.dm.curNode, w.dserv)
 		if err != nil {
 			probeErr = err
 			return
 		}
 		defer dr.Close()
-		if _, err := io.ReadAll(dr); err != nil {
-			probeErr = err
-			return
-		}
-		if _, err := dr.Seek(int64(dr.Size()/2)+1, io.SeekStart); err != nil {
-			probeErr = err
-		}
+		got, probeErr = io.ReadAll(dr)
 	})
 	if o.hung || o.pan != nil {
 		return
@@ -1416,17 +1411,12 @@ func (w *vc10World) failedExtension(t int64) {
 		w.k.Fail("fault/extension-applied-despite-error", "failed-call-leaves-dag-intact", "the modifier's DAG is readable after the failed extension", probeErr.Error())
 		return
 	}
-	var next []vc10State
 	for _, s := range w.states {
-		next = append(next, s)
-		if t > int64(len(s.data)) {
-			b := s.clone()
-			b.resize(t)
-			next = append(next, b)
+		if bytes.Equal(got, s.data) {
+			return
 		}
 	}
-	w.states = next
-	w.dedupe()
+	w.k.Fail("fault/extension-applied-despite-error", "failed-call-leaves-content", "the modifier's DAG holds the content from before the failed extension", fmt.Sprintf("%d bytes: %s", len(got), w.hex(got)))
 }
 
 // noteFlushDepth records (for the non-triviality rule) that the modifier's
